@@ -10,7 +10,7 @@ RFlat == << R(1, 16), R(1, 16), R(1, 16), R(1, 16), R(1, 16) >>
 RUp == << R(1, 16), R(1, 16), R(1, 8), R(1, 8), R(1, 8) >>
 
 Base(m) == [model |-> m, a1 |-> Half, a2 |-> Half, theta |-> Quarter, l0 |-> Half, l1 |-> RInt(2), l2 |-> RZero,
-            G |-> G20, r |-> RFlat, H0 |-> RZero, YD0 |-> RZero, B0 |-> RZero]
+            G |-> G20, r |-> RFlat, H0 |-> RZero, YD0 |-> RZero, B0 |-> RZero, partial |-> FALSE]
 
 SimCases == { [Base(m) EXCEPT !.a1 = a1, !.a2 = a2, !.theta = th, !.G = g, !.H0 = h0, !.YD0 = yd0] :
                 m \in {"SIM", "SIMEX1"}, a1 \in {Half, ThreeQ}, a2 \in {Quarter, Half}, th \in {Quarter, Half},
@@ -29,8 +29,11 @@ Corners == { [Base(m) EXCEPT !.theta = RZero, !.H0 = h0] : m \in {"SIM", "SIMEX1
              [Base("PC") EXCEPT !.l1 = RZero, !.r = RUp, !.H0 = RInt(64), !.B0 = RInt(32)],
              [Base("PC") EXCEPT !.l0 = RZero, !.l1 = RZero, !.H0 = RInt(64)],
              [Base("PC") EXCEPT !.theta = RZero, !.r = RUp, !.H0 = RInt(64), !.B0 = RInt(32)] }
+\* model PC started from partial stocks: wealth and disposable income stated, the bill / money split left to the model
+PcPartial == { [Base("PC") EXCEPT !.partial = TRUE, !.a1 = a1, !.theta = th, !.l1 = RInt(4), !.l2 = l2, !.r = r, !.H0 = RInt(64), !.YD0 = RInt(128)] :
+                 a1 \in {Half, ThreeQ}, th \in {Quarter, Half}, l2 \in {RZero, R(1, 8)}, r \in {RFlat, RUp} }
 \* SIM ignores YD0: drop the duplicates
-MCCases == Corners \cup { x \in SimCases : x.model = "SIMEX1" \/ x.YD0 = RZero } \cup { x \in PcCases : x.B0[1] <= x.H0[1] }
+MCCases == Corners \cup PcPartial \cup { x \in SimCases : x.model = "SIMEX1" \/ x.YD0 = RZero } \cup { x \in PcCases : x.B0[1] <= x.H0[1] }
 
 \* thorough: a wider grid at the same horizon (horizon 4 overflows TLC's 32-bit integers on parts of the grid)
 SimBig == { [Base(m) EXCEPT !.a1 = a1, !.a2 = a2, !.theta = th, !.G = g, !.H0 = h0, !.YD0 = yd0] :
@@ -39,7 +42,7 @@ SimBig == { [Base(m) EXCEPT !.a1 = a1, !.a2 = a2, !.theta = th, !.G = g, !.H0 = 
 PcBig == { [Base("PC") EXCEPT !.a1 = a1, !.a2 = a2, !.theta = th, !.l0 = l0, !.l1 = l1, !.l2 = l2, !.r = r, !.G = g, !.H0 = RInt(h0), !.B0 = RInt(b0)] :
                 a1 \in {Half, ThreeQ}, a2 \in {Quarter, Half}, th \in {Quarter, Half}, l0 \in {Half, Quarter}, l1 \in {RInt(2), RInt(4)},
                 l2 \in {RZero, R(1, 8)}, r \in {RFlat, RUp}, g \in {G20, GStep}, h0 \in {0, 64}, b0 \in {0, 32} }
-MCBig == Corners \cup { x \in SimBig : x.model = "SIMEX1" \/ x.YD0 = RZero } \cup { x \in PcBig : x.B0[1] <= x.H0[1] }
+MCBig == Corners \cup PcPartial \cup { x \in SimBig : x.model = "SIMEX1" \/ x.YD0 = RZero } \cup { x \in PcBig : x.B0[1] <= x.H0[1] }
 
 Emit == (k = Horizon) => PrintT(<< "BEH", ToJson([c |-> c, hist |-> hist]) >>)
 =============================================================================
